@@ -19,7 +19,7 @@ DEFINITION_DATA = ('__bases__', '_bases', '__doc__', '__dict__', '__iro__',
 
 def tuple_elems(e):
     """['a', 'b', '*rest'] for (a, b) + rest / (a, b, *rest) / tuple(...)"""
-    if isinstance(e, ast.Tuple):
+    if isinstance(e, (ast.Tuple, ast.List)):
         out = []
         for x in e.elts:
             if isinstance(x, ast.Starred):
@@ -45,9 +45,14 @@ def _star(v):
 
 def module_functions(mod):
     """(qualname, function with new helpers inlined) of every def in the module"""
+    from ..inline import known_names
+    known = known_names(getattr(mod, 'relpath', ''))
     out = []
     for f in ast.walk(mod):
         if isinstance(f, FUNC):
+            if f.name.startswith('_') and not f.name.startswith('__') and \
+                    f.name not in known:
+                continue      # a new private helper: seen inlined in its callers
             out.append((qualname(f), inlined(f)))
     return out
 
